@@ -119,6 +119,19 @@ fn run(rng: &mut Rng, _idx: u64, tier: Tier) -> CaseOut {
             let mut props = world.net.names.clone();
             if rng.chance(1, 6) {
                 props.push(rng.pick(&["zz", "unknown_1", "EXq", "x"]).to_string());
+            } else if rng.chance(1, 6) {
+                // the name of a symbolic variable of this graph that is not a network variable
+                // (spare copies `<var>_extra_<i>`); only names the tokenizer reads as one proposition
+                let vars = sys.graph.symbolic_context().bdd_variable_set();
+                let cands: Vec<String> = vars
+                    .variables()
+                    .into_iter()
+                    .map(|v| vars.name_of(v))
+                    .filter(|n| !world.net.names.contains(n) && n.chars().all(|c| c.is_ascii_alphanumeric() || c == '_'))
+                    .collect();
+                if !cands.is_empty() {
+                    props.push(rng.pick(&cands).clone());
+                }
             }
             let f = gen_formula(rng, &fopts, &props);
             let mut style = Style::default();
